@@ -764,6 +764,13 @@ pub fn gen(r: &mut Rng, n: usize, flavor: &str) -> Vec<String> {
             out.push(format!("name {}", hex(&h)));
         }
     }
+    if flavor == "C08" {
+        // "the peer id the tracker announced for that address": the (address, id) pairs read from tracker replies —
+        // entries with unusable ids or addresses in front of good ones, so that a pairing slip shows
+        for _ in 0..(n / 4) {
+            out.push(format!("resp {}", hex(&crate::tr19::gen_reply(r))));
+        }
+    }
     if flavor == "C11" {
         // the manager's side: the bitfield computed at Init for random status vectors (incl. Reserved pieces)
         for _ in 0..(n / 5) {
